@@ -362,8 +362,10 @@ def run_ss(spec, res):
     res.count("order_estimates", len(orders))
     res.maxobs("max_smallsignal_error_over_amplitude", errs[-1] / max(amp, 1e-300))
     usable = [o for o, e in zip(orders, errs) if e > 20 * floor]
-    if amp > 10 * eps * 0.01 and usable and not all(lo <= o <= hi for o in usable[:1]):
-        res.violate("smallsignal_order", "%s: errors vs expm(A t) response %s give orders %s outside [%.2f, %.2f]" % (
+    # the pair above the floor is the coarsest one: it has to shrink at least at the method's order (a coarse step may
+    # still converge faster than that; see C04)
+    if amp > 10 * eps * 0.01 and usable and not (usable[0] >= lo):
+        res.violate("smallsignal_order", "%s: errors vs expm(A t) response %s give orders %s; the pair above the floor must reach %.2f (band top %.2f not enforced on a coarse pair)" % (
             tag, ["%.3e" % e for e in errs], ["%.2f" % o for o in orders], lo, hi), method=method)
     if method == "trapezoid" and errs[-1] > 0.02 * amp + floor:
         res.violate("smallsignal_accuracy", "%s: finest-step error %.3e exceeds 2%% of the response amplitude %.3e" % (tag, errs[-1], amp), method=method)
